@@ -352,6 +352,42 @@ VF_TYPE(DefPod, {}, DefPod{1 VF_COMMA 2.5 VF_COMMA "abc"}, DefPod{-1 VF_COMMA -0
 VF_TYPE(DefNt, (Flags{false VF_COMMA false VF_COMMA false}), DefNt{"nt" VF_COMMA -6 VF_COMMA 101.5}, DefNt{std::string(40, 'N') VF_COMMA 72057594037927936ll VF_COMMA -1e300});
 VF_TYPE(Direct, (Flags{false VF_COMMA false VF_COMMA true}), Direct{"dir" VF_COMMA 3}, Direct{"" VF_COMMA -1});
 
+// ---- containers / optionals / pairs / tuples whose ELEMENTS use the per-thread size cache (C strings, direct-format types),
+// and ordered containers with a non-default comparator (the backend must keep the caller's iteration order)
+using OptCs = std::optional<char const*>;
+using VecCs = std::vector<char const*>;
+using PairCsI = std::pair<char const*, int>;
+using TupCsSCs = std::tuple<char const*, std::string, char const*>;
+using ArrCs2 = std::array<char const*, 2>;
+using MapICs = std::map<int, char const*>;
+using OptDirect = std::optional<Direct>;
+using SetIGt = std::set<int, std::greater<int>>;
+using MSetSGt = std::multiset<std::string, std::greater<>>;
+using MapISGt = std::map<int, std::string, std::greater<int>>;
+#define VF_TYPE_BF(T, FLAGS, ...)                                                                          \
+  template <>                                                                                      \
+  struct Alpha<T>                                                                                  \
+  {                                                                                                \
+    static char const* name() { return #T; }                                                      \
+    static Flags flags() { return FLAGS; }                                                         \
+    static std::vector<T> values(Backing& b)                                                       \
+    {                                                                                              \
+      (void)b;                                                                                     \
+      return std::vector<T>{__VA_ARGS__};                                                          \
+    }                                                                                              \
+  }
+#define VF_TYPE_B(T, ...) VF_TYPE_BF(T, {}, __VA_ARGS__)
+VF_TYPE_B(OptCs, OptCs{}, OptCs{b.put("abcdef")}, OptCs{b.put("")});
+VF_TYPE_B(VecCs, VecCs{}, VecCs{b.put("a") VF_COMMA b.put("bcd") VF_COMMA b.put("")}, VecCs{b.put(std::string(13, 'c'))});
+VF_TYPE_B(PairCsI, PairCsI{b.put("first") VF_COMMA 1}, PairCsI{b.put("") VF_COMMA -1});
+VF_TYPE_B(TupCsSCs, TupCsSCs{b.put("t1") VF_COMMA "mid" VF_COMMA b.put("last-one")}, TupCsSCs{b.put("") VF_COMMA "" VF_COMMA b.put("x")});
+VF_TYPE_B(ArrCs2, ArrCs2{b.put("ab") VF_COMMA b.put("cdefg")}, ArrCs2{b.put("") VF_COMMA b.put("")});
+VF_TYPE_B(MapICs, MapICs{}, MapICs{{2 VF_COMMA b.put("two")} VF_COMMA {1 VF_COMMA b.put("")}});
+VF_TYPE_BF(OptDirect, (Flags{false VF_COMMA false VF_COMMA true}), OptDirect{}, OptDirect{Direct{"od" VF_COMMA 4}});
+VF_TYPE_B(SetIGt, SetIGt{}, SetIGt{1 VF_COMMA 10 VF_COMMA 2 VF_COMMA 3});
+VF_TYPE_B(MSetSGt, MSetSGt{"a" VF_COMMA "b" VF_COMMA "a" VF_COMMA "c"}, MSetSGt{});
+VF_TYPE_B(MapISGt, MapISGt{{1 VF_COMMA "one"} VF_COMMA {3 VF_COMMA "three"} VF_COMMA {2 VF_COMMA ""}}, MapISGt{});
+
 // the menu, by index
 template <int I>
 struct TypeAt;
@@ -362,7 +398,9 @@ struct TypeAt;
   X(22, ArrS2) X(23, VecI) X(24, VecD) X(25, VecS) X(26, VecVecI) X(27, VecOptS) X(28, VecPairIS) X(29, DeqI) X(30, DeqS)         \
   X(31, ListS) X(32, FwdI) X(33, SetI) X(34, MSetS) X(35, MapIS) X(36, MapSVecI) X(37, MMapSI) X(38, USetI) X(39, UMSetS)          \
   X(40, UMapSI) X(41, UMMapIS) X(42, OptI) X(43, OptS) X(44, OptPairIS) X(45, PairIS) X(46, PairSVecI) X(47, TupIDS)              \
-  X(48, TupVecIS) X(49, Secs) X(50, Millis) X(51, SysTp) X(52, FsPath) X(53, DefPod) X(54, DefNt) X(55, Direct)
+  X(48, TupVecIS) X(49, Secs) X(50, Millis) X(51, SysTp) X(52, FsPath) X(53, DefPod) X(54, DefNt) X(55, Direct)              \
+  X(56, OptCs) X(57, VecCs) X(58, PairCsI) X(59, TupCsSCs) X(60, ArrCs2) X(61, MapICs) X(62, OptDirect) X(63, SetIGt)            \
+  X(64, MSetSGt) X(65, MapISGt)
 #define VF_DEF_AT(I, T)                                                                            \
   template <>                                                                                      \
   struct TypeAt<I>                                                                                 \
@@ -370,7 +408,7 @@ struct TypeAt;
     using type = T;                                                                                \
   };
 VF_MENU(VF_DEF_AT)
-static constexpr int MENU_SIZE = 56;
+static constexpr int MENU_SIZE = 66;
 
 // normalisation of the call-site oracle: a null C string is rendered as empty text by quill (the call-site
 // formatter rejects it)
